@@ -15,7 +15,7 @@ pub struct C19;
 pub enum C19Case {
     Drip(DripCase),
     /// generated eof(): per input 0 open+empty, 1 open+data, 2 ended+empty, 3 ended+data
-    Eof { kind: u8, states: [u8; 2] },
+    Eof { kind: u8, states: [u8; 2], #[serde(default)] outs_dropped: bool },
 }
 
 fn u32s(d: &InputData) -> &[u32] {
@@ -63,12 +63,14 @@ impl Prop for C19 {
         let mut v = Vec::new();
         for kind in 0..DERIVED_KINDS {
             let n = derived_shape(kind).0;
-            for s0 in 0..4u8 {
-                if n == 1 {
-                    v.push(C19Case::Eof { kind, states: [s0, 0] });
-                } else {
-                    for s1 in 0..4u8 {
-                        v.push(C19Case::Eof { kind, states: [s0, s1] });
+            for outs_dropped in [false, true] {
+                for s0 in 0..4u8 {
+                    if n == 1 {
+                        v.push(C19Case::Eof { kind, states: [s0, 0], outs_dropped });
+                    } else {
+                        for s1 in 0..4u8 {
+                            v.push(C19Case::Eof { kind, states: [s0, s1], outs_dropped });
+                        }
                     }
                 }
             }
@@ -77,25 +79,25 @@ impl Prop for C19 {
     }
     fn exhaustive_subdomains(&self) -> Vec<String> {
         vec![
-            "generated eof(): all 4^n states {open,ended} x {empty,data} of the n inputs, for each of the 10 harness-defined derive blocks".into(),
+            "generated eof(): all 4^n states {open,ended} x {empty,data} of the n inputs x {output read ends alive, all dropped}, for each of the 10 harness-defined derive blocks".into(),
             "arity: sync blocks with 3 inputs are not constructible (the macro's nested zip does not type-check), a compile-time refusal".into(),
         ]
     }
     fn run(&self, case: &C19Case, ctx: &mut Ctx) {
         match case {
-            C19Case::Eof { kind, states } => run_eof(*kind, *states, ctx),
+            C19Case::Eof { kind, states, outs_dropped } => run_eof(*kind, *states, *outs_dropped, ctx),
             C19Case::Drip(d) => run_drip(d, ctx),
         }
     }
     fn rule(&self) -> String {
-        "generated: 10 harness-defined blocks using #[derive(rustradio_macros::Block)] (sync 1->1, 1->2, 1->3, 2->1, 2->2, 2->3 with a distinct function per output; sync_tag 1->1 and 2->1; default+into fields (an `into` field declared before a plain field of an interchangeable type, so the constructor's argument order shows in the output); a non-sync block with generated new() over a copy and a non-copy output) under C08-style drip schedules with unequal input lengths and unequal free space per output (one case in six on 16-page streams with 5000+ samples per input, so that single calls take more than 4096 steps). Oracle per work() call: steps = min(shortest input, smallest output space); every input loses exactly `steps`, every output gains exactly `steps`, the per-sample function runs exactly `steps` times, verdict Again; with steps = 0 nothing moves and the verdict names an empty input or a full output. Final outputs equal the per-port functions (so read ends come back in declaration order), tags follow the first input plus the block's own (the 2->1 sync_tag block also forwards the tags of its second input under its own key). eof() is enumerated over all input states. Non-trivial: some call saw unequal inputs or unequal output space; distinct = hash of the case.".into()
+        "generated: 10 harness-defined blocks using #[derive(rustradio_macros::Block)] (sync 1->1, 1->2, 1->3, 2->1, 2->2, 2->3 with a distinct function per output; sync_tag 1->1 and 2->1; default+into fields (an `into` field declared before a plain field of an interchangeable type, so the constructor's argument order shows in the output); a non-sync block with generated new() over a copy and a non-copy output) under C08-style drip schedules with unequal input lengths and unequal free space per output (one case in six on 16-page streams with 5000+ samples per input, so that single calls take more than 4096 steps). Oracle per work() call: steps = min(shortest input, smallest output space); every input loses exactly `steps`, every output gains exactly `steps`, the per-sample function runs exactly `steps` times, verdict Again; with steps = 0 nothing moves and the verdict names an empty input or a full output. Final outputs equal the per-port functions (so read ends come back in declaration order), tags follow the first input plus the block's own (the 2->1 sync_tag block also forwards the tags of its second input under its own key). eof() is enumerated over all input states, with the output read ends alive and dropped. Non-trivial: some call saw unequal inputs or unequal output space; distinct = hash of the case.".into()
     }
     fn assumptions(&self) -> Vec<String> {
         vec!["calls made after the harness dropped a stream end are not judged (buffered counts are unobservable then)".into()]
     }
 }
 
-fn run_eof(kind: u8, states: [u8; 2], ctx: &mut Ctx) {
+fn run_eof(kind: u8, states: [u8; 2], outs_dropped: bool, ctx: &mut Ctx) {
     let spec = BlockSpec::Derived { kind, k: 1 };
     let name = spec.name();
     ctx.class("eof-state-enumeration");
@@ -109,12 +111,16 @@ fn run_eof(kind: u8, states: [u8; 2], ctx: &mut Ctx) {
             b.ins[i].close();
         }
     }
+    if outs_dropped {
+        // the read ends of all outputs are gone: no concern of end-of-*input* detection
+        b.outs.clear();
+    }
     let want = (0..n).all(|i| states[i] == 2);
     let got = b.block.eof();
     if got != want {
         ctx.fail(
             format!("C19/eof/{name}"),
-            format!("{name}.eof() = {got} with input states {:?} (0 open+empty, 1 open+data, 2 ended+empty, 3 ended+data); expected {want}", &states[..n]),
+            format!("{name}.eof() = {got} with input states {:?} (0 open+empty, 1 open+data, 2 ended+empty, 3 ended+data), output read ends dropped: {outs_dropped}; expected {want}", &states[..n]),
         );
     }
 }
